@@ -754,6 +754,8 @@ func jpfSortBy(arguments []interface{}) (interface{}, error) {
 	if err != nil {
 		return nil, err
 	}
+	// Sort a copy: the argument may be (part of) the caller's document.
+	arr = append([]interface{}{}, arr...)
 	if _, ok := start.(float64); ok {
 		sortable := &byExprFloat{intr, node, arr, false}
 		sort.Stable(sortable)
